@@ -22,6 +22,7 @@ class Publish:
     value_expr: Optional[ast.AST]
     value_inst: object
     site: Ev               # outermost call event in the root activation chain that leads here (for reports)
+    home: Ev = None        # the call statement (outside the storage classes) that performs the publish
 
 
 def _strip_data(t):
@@ -53,8 +54,33 @@ def publishes(ctx: Ctx, g: Graph, fields: Optional[Iterable[str]] = None) -> Lis
         key = sym.term(ctx.p, tgt.slice, ev.inst)
         vexpr, vinst = sym.resolve_params_only(ctx.p, ev.info['value'], ev.inst)
         value = sym.term(ctx.p, ev.info['value'], ev.inst)
-        out.append(Publish(ev, fld, key, value, vexpr, vinst, outer_site(g, ev)))
+        out.append(Publish(ev, fld, key, value, vexpr, vinst, outer_site(g, ev), home_site(ctx, g, ev)))
     return out
+
+
+def storage_classes(ctx: Ctx) -> set:
+    st = ctx.storage_class()
+    out = {st}
+    for name, (ann, default) in st.fields.items():
+        if ann is not None:
+            t = ctx.p.ann_to_type(ann, st.module)
+            if t[0] == 'class':
+                out.add(t[1])
+    return out
+
+
+def home_site(ctx: Ctx, g: Graph, ev: Ev) -> Ev:
+    """The call event, outside the storage classes, through which the primitive `ev` is performed."""
+    stc = storage_classes(ctx)
+    inst = ev.inst
+    home = ev
+    while inst is not None and inst.unit.cls in stc and inst.parent is not None:
+        for cand in g.evs:
+            if cand.kind == 'call' and cand.info.get('callee') is inst:
+                home = cand
+                break
+        inst = inst.parent
+    return home
 
 
 def hides(ctx: Ctx, g: Graph) -> List[Tuple[Ev, str, tuple]]:
@@ -90,6 +116,48 @@ def outer_site(g: Graph, ev: Ev) -> Ev:
     return site
 
 
+_body_ids: Dict[int, set] = {}
+
+
+def _loop_body_ids(lp: Ev) -> set:
+    node = lp.node
+    key = id(node)
+    if key not in _body_ids:
+        ids = set()
+        if isinstance(node, (ast.For, ast.AsyncFor, ast.While)):
+            for st in node.body:
+                for x in ast.walk(st):
+                    ids.add(id(x))
+        elif isinstance(node, ast.comprehension):
+            comp = lp.info.get('comp')
+            if comp is not None:
+                for x in ast.walk(comp):
+                    ids.add(id(x))
+        _body_ids[key] = ids
+    return _body_ids[key]
+
+
+def in_loop_body(ev: Ev, lp: Ev) -> bool:
+    """ev is executed by the body of loop `lp` (syntactically inside it, or in an activation called
+    from inside it)."""
+    ids = _loop_body_ids(lp)
+    inst = ev.inst
+    node = ev.node
+    while inst is not None and inst is not lp.inst:
+        node = inst.call
+        inst = inst.parent
+    if inst is None or node is None:
+        return False
+    return id(node) in ids
+
+
+def loop_region(g: Graph, lp: Ev, labels=NORMAL_LABELS) -> set:
+    tsucc = [m for m, lab in g.succ[lp.id] if lab == 'T']
+    r = reach(g, tsucc, stop={lp.id}, labels=labels) | set(tsucc)
+    r.discard(lp.id)
+    return {n for n in r if in_loop_body(g.evs[n], lp)}
+
+
 def notify_points(ctx: Ctx, g: Graph) -> List[Tuple[int, tuple, str]]:
     """(event id, key term, how) for every notification: a direct notify_all call ('call'), or the
     header of a loop that notifies every element of its iterable ('loop': key = elem(iter))."""
@@ -107,7 +175,7 @@ def notify_points(ctx: Ctx, g: Graph) -> List[Tuple[int, tuple, str]]:
         tsucc = [m for m, lab in g.succ[lp.id] if lab == 'T']
         if not tsucc:
             continue
-        region = reach(g, tsucc, stop={lp.id}, labels=NORMAL_LABELS) | set(tsucc)
+        region = loop_region(g, lp)
         if any(g.evs[n].kind in ('return', 'break', 'raise') and g.evs[n].inst is lp.inst for n in region):
             continue
         matching = {n for n, k in direct.items() if k == key}
